@@ -307,25 +307,35 @@ def _real(e):
     return z3.ToReal(e) if e.sort() == z3.IntSort() else e
 
 
-def prove_sum_close(ob, impl, spec_terms, tol, label, cex, spec_const=0):
-    """prove |impl - (sum(spec_terms)+spec_const)| <= tol on the current path.
-    Summand-wise cut: addends of impl and spec are grouped by the set of input variables they mention; each group
-    closeness is a small lemma query under the path condition; the full claim is then derived from the proved lemmas
-    by a linear-arithmetic query in which the (ite-chain) atoms are abstracted to fresh reals (sound: abstraction only
-    adds behaviours).  If any piece fails, the monolithic query decides."""
-    I, res = ob.I, ob.res
-    spec_sum = (z3.Sum([_real(t) for t in spec_terms]) if len(spec_terms) > 1 else (_real(spec_terms[0]) if spec_terms else z3.RealVal(0))) + rv(spec_const)
-    claim = within(impl - spec_sum, tol)
-    try:
-        ia = addends(impl)
-        sa = addends(spec_sum)
-        atoms = {}
+class SumCut:
+    """summand-wise lemma cut for |impl - spec| <= tol (see prove_sum_close); keeps the abstraction so that further
+    claims can be derived from the proved lemmas (derive)."""
 
-        def ab(a):
-            k = a.get_id()
-            if k not in atoms:
-                atoms[k] = (a, z3.Real("__atom%d" % len(atoms)))
-            return atoms[k][1]
+    def __init__(self, ob, impl, spec_terms, tol, spec_const=0):
+        self.ob = ob
+        self.impl = impl
+        self.tol = tol
+        self.spec_sum = (z3.Sum([_real(t) for t in spec_terms]) if len(spec_terms) > 1 else (_real(spec_terms[0]) if spec_terms else z3.RealVal(0))) + rv(spec_const)
+        self.claim = within(impl - self.spec_sum, tol)
+        self.atoms = {}
+        self.abs_lemmas = None
+        self.nlemmas = 0
+        self.failed_model = None
+
+    def _ab(self, a):
+        k = a.get_id()
+        if k not in self.atoms:
+            self.atoms[k] = (a, z3.Real("__atom%d" % len(self.atoms)))
+        return self.atoms[k][1]
+
+    def subs(self):
+        return [(a, r) for a, r in self.atoms.values()]
+
+    def lemmas(self):
+        """prove the group lemmas under the path condition; True when all are proved"""
+        I, res = self.ob.I, self.ob.res
+        ia = addends(self.impl)
+        sa = addends(self.spec_sum)
         groups = {}
         for c, a in ia:
             key = z3_consts(a) if a is not None else frozenset()
@@ -339,58 +349,82 @@ def prove_sum_close(ob, impl, spec_terms, tol, label, cex, spec_const=0):
                 tgt = key
             groups[tgt][1].append((c, a))
         ng = len(groups)
-        if ng > 1:
-            def tot(lst, abstract):
-                ts = [(rv(c) * (ab(a) if abstract else _real(a)) if a is not None else rv(c)) for c, a in lst]
-                return z3.Sum(ts) if len(ts) > 1 else (ts[0] if ts else z3.RealVal(0))
-            abs_lemmas = []
-            ok = True
-            nl = 0
-            for key, (gi, gs) in groups.items():
-                lem = within(tot(gi, False) - tot(gs, False), Fraction(tol) / ng)
-                I.solver.push()
-                I.solver.add(z3.Not(lem))
-                t0 = time.time()
-                r = I.solver.check()
-                res["solver_s"] += time.time() - t0
-                mdl = I.solver.model() if r == z3.sat else None
-                I.solver.pop()
-                if r != z3.unsat:
-                    ok = False
-                    if mdl is not None and z3.is_false(mdl.eval(claim, model_completion=True)):
-                        # the lemma's model already falsifies the full claim
-                        res["obligations"] += 1
-                        res["sat"] += 1
-                        c = cex(mdl) if cex else None
-                        if c is not None:
-                            c.setdefault("label", label)
-                            res["candidates"].append(c)
-                            return False
-                        res["obligations"] -= 1
-                        res["sat"] -= 1
-                    break
-                nl += 1
-                abs_lemmas.append(within(tot(gi, True) - tot(gs, True), Fraction(tol) / ng))
-            if ok:
-                subs = [(a, r) for a, r in atoms.values()]
-                a_impl = z3.substitute(impl, *subs)
-                a_spec = z3.substitute(spec_sum, *subs)
-                s2 = z3.Solver()
-                s2.set("timeout", 60000)
-                for l in abs_lemmas:
-                    s2.add(l)
-                s2.add(z3.Not(within(a_impl - a_spec, tol)))
-                t0 = time.time()
-                r = s2.check()
-                res["solver_s"] += time.time() - t0
-                if r == z3.unsat:
-                    res["obligations"] += nl + 1
-                    res["discharged"] += nl + 1
-                    return True
-                res["notes"].append("summand cut: abstract combination not unsat (%s) for %s; monolithic query used" % (r, label))
+        if ng <= 1:
+            return False
+
+        def tot(lst, abstract):
+            ts = [(rv(c) * (self._ab(a) if abstract else _real(a)) if a is not None else rv(c)) for c, a in lst]
+            return z3.Sum(ts) if len(ts) > 1 else (ts[0] if ts else z3.RealVal(0))
+        abs_lemmas = []
+        for key, (gi, gs) in groups.items():
+            lem = within(tot(gi, False) - tot(gs, False), Fraction(self.tol) / ng)
+            I.solver.push()
+            I.solver.add(z3.Not(lem))
+            t0 = time.time()
+            r = I.solver.check()
+            res["solver_s"] += time.time() - t0
+            mdl = I.solver.model() if r == z3.sat else None
+            I.solver.pop()
+            if r != z3.unsat:
+                self.failed_model = mdl
+                return False
+            self.nlemmas += 1
+            abs_lemmas.append(within(tot(gi, True) - tot(gs, True), Fraction(self.tol) / ng))
+        self.abs_lemmas = abs_lemmas
+        return True
+
+    def derive(self, claim, label, cex, extra_abs=()):
+        """prove `claim` from the proved lemmas with the addend atoms abstracted to fresh reals; falls back to the
+        monolithic query under the path condition"""
+        res = self.ob.res
+        if self.abs_lemmas is not None:
+            s2 = z3.Solver()
+            s2.set("timeout", 60000)
+            for l in self.abs_lemmas:
+                s2.add(l)
+            for l in extra_abs:
+                s2.add(z3.substitute(l, *self.subs()))
+            s2.add(z3.Not(z3.substitute(claim, *self.subs())))
+            t0 = time.time()
+            r = s2.check()
+            res["solver_s"] += time.time() - t0
+            if r == z3.unsat:
+                res["obligations"] += 1
+                res["discharged"] += 1
+                return True
+            res["notes"].append("summand cut: abstract derivation not unsat (%s) for %s; monolithic query used" % (r, label))
+        return self.ob.prove(claim, label, cex)
+
+
+def prove_sum_close(ob, impl, spec_terms, tol, label, cex, spec_const=0, want_cut=False):
+    """prove |impl - (sum(spec_terms)+spec_const)| <= tol on the current path.
+    Summand-wise cut: addends of impl and spec are grouped by the set of input variables they mention; each group
+    closeness is a small lemma query under the path condition; the full claim is then derived from the proved lemmas
+    by a linear-arithmetic query in which the (ite-chain) atoms are abstracted to fresh reals (sound: abstraction only
+    adds behaviours).  If any piece fails, the monolithic query decides."""
+    res = ob.res
+    cut = SumCut(ob, impl, spec_terms, tol, spec_const)
+    ok = None
+    try:
+        if cut.lemmas():
+            res["obligations"] += cut.nlemmas
+            res["discharged"] += cut.nlemmas
+            ok = cut.derive(cut.claim, label, cex)
+        elif cut.failed_model is not None and z3.is_false(cut.failed_model.eval(cut.claim, model_completion=True)):
+            # the failing lemma's model already falsifies the full claim
+            c = cex(cut.failed_model) if cex else None
+            if c is not None:
+                res["obligations"] += 1
+                res["sat"] += 1
+                c.setdefault("label", label)
+                res["candidates"].append(c)
+                ok = False
     except Exception as ex:   # decomposition is an optimisation only
         res["notes"].append("summand cut not applied (%s: %s)" % (type(ex).__name__, ex))
-    return ob.prove(claim, label, cex)
+        cut.abs_lemmas = None
+    if ok is None:
+        ok = ob.prove(cut.claim, label, cex)
+    return (ok, cut) if want_cut else ok
 
 
 def abstract_ites(exprs):
